@@ -41,17 +41,22 @@ def _run(case):
     pc = case["pipe"]
     if case.get("arm"):
         slot_i, k = case["arm"]
+    if case.get("bad_dispose"):
+        # fault injection: unsubscribing from the root sources raises (a user teardown callback that fails)
+        pc = dict(pc, root=dict(pc["root"], srcs=[dict(sp, bad_dispose=True) for sp in pc["root"]["srcs"]]))
     o = B.build(pc)
-    p = lab.probe("p", raise_at=case.get("probe_raise") or (), inner={"mode": case.get("inner", "now")})
+    p = lab.probe("p", raise_at=case.get("probe_raise") or (), inner={"mode": case.get("inner", "now")}, reenter_on_terminal=bool(case.get("reenter")))
     if case.get("arm"):
         _install_arm(lab, slot_i, k)
     try:
         p.subscribe(o)
     except Tagged:
-        pass  # probe's own exception propagating out of subscribe() is allowed
+        pass  # the probe's own exception / a raising teardown propagating out of subscribe() is allowed
     if not lab.inconclusive:
         lab.run()
-    while isinstance(lab.escaped, Tagged) and lab.escaped.tag.startswith("probe:"):
+    n_resume = 0
+    while isinstance(lab.escaped, Tagged) and lab.escaped.tag.startswith(("probe:", "teardown:")) and n_resume < 50:
+        n_resume += 1
         # the probe's own exception escaped into the scheduler: allowed; keep draining
         lab.escaped = None
         lab.run()
@@ -75,6 +80,13 @@ def _run(case):
         cls.append("probe-raised")
     if subfault:
         cls.append("subscribe-raised-after-wiring")
+    if p.reentered:
+        cls.append("terminal-handler-reentered-source")
+        faulted = True
+        nontrivial = len(p.events) >= 1
+    if case.get("bad_dispose") and any(isinstance(getattr(s_, "bad_dispose", False), bool) and s_.bad_dispose and any(b is not None for a, b in s_.subs) for s_ in lab.sources):
+        cls.append("teardown-raised")
+        nontrivial = len(p.events) >= 1
     if len(lab.probes) > 1:
         cls.append("inner-probes")
     if bad:
@@ -104,6 +116,8 @@ def _cases(max_ops):
             "probe_raise": st.one_of(st.none(), st.none(), st.lists(st.integers(0, 5), min_size=1, max_size=2)),
             "arm": st.one_of(st.none(), st.tuples(st.integers(0, 3), st.integers(0, 3)).map(list)),
             "inner": st.sampled_from(["now", "now", "late", "never"]),
+            "reenter": st.sampled_from([False, False, True]),
+            "bad_dispose": st.sampled_from([False, False, False, True]),
         }
     )
 
